@@ -8,3 +8,83 @@ pub fn sanitize_namespace(key: &str) -> String {
 pub fn checksum64(data: &[u8]) -> u64 {
     super::config::checksum64(data)
 }
+
+// ---------------------------------------------------------------------------------------
+// I/O event seam (observation, process-crash points and fault injection for the external
+// verification harness).  Every storage-level I/O site calls `io_event` immediately BEFORE
+// acting.  Events issued by the thread that armed a crash/fault point are numbered; the
+// process ends with `_exit` right before the armed event, or the site is told to report
+// failure.  With nothing armed the hook only counts (and records when tracing is on).
+
+use std::sync::atomic::{AtomicBool, AtomicU64, Ordering};
+use std::sync::Mutex;
+
+#[derive(Clone, Copy, PartialEq, Eq, Debug)]
+pub enum IoDecision {
+    Proceed,
+    /// the site reports an I/O error (or, where the code ignores errors, skips the action)
+    Fail,
+    /// io_uring submission only: submit what is queued so far, wait for it, then exit
+    DrainExit,
+}
+
+static EVENTS: AtomicU64 = AtomicU64::new(0);
+static EXIT_AT: AtomicU64 = AtomicU64::new(0);
+static FAIL_AT: AtomicU64 = AtomicU64::new(0);
+static TRACING: AtomicBool = AtomicBool::new(false);
+static TRACE: Mutex<Vec<String>> = Mutex::new(Vec::new());
+thread_local! { static COUNTED: std::cell::Cell<bool> = const { std::cell::Cell::new(false) }; }
+
+/// Number events of the calling thread from now on.
+pub fn count_this_thread() {
+    COUNTED.with(|c| c.set(true));
+}
+pub fn events() -> u64 {
+    EVENTS.load(Ordering::SeqCst)
+}
+/// End the process right before the k-th counted event from now (k >= 1); 0 disarms.
+pub fn arm_exit_in(k: u64) {
+    EXIT_AT.store(if k == 0 { 0 } else { events() + k }, Ordering::SeqCst);
+}
+/// Make the k-th counted event from now report failure; 0 disarms.
+pub fn arm_fail_in(k: u64) {
+    FAIL_AT.store(if k == 0 { 0 } else { events() + k }, Ordering::SeqCst);
+}
+pub fn start_trace() {
+    TRACE.lock().unwrap_or_else(|e| e.into_inner()).clear();
+    TRACING.store(true, Ordering::SeqCst);
+}
+pub fn take_trace() -> Vec<String> {
+    TRACING.store(false, Ordering::SeqCst);
+    std::mem::take(&mut *TRACE.lock().unwrap_or_else(|e| e.into_inner()))
+}
+pub fn exit_now() -> ! {
+    unsafe { libc::_exit(86) }
+}
+pub fn injected_error() -> std::io::Error {
+    std::io::Error::new(std::io::ErrorKind::Other, "verif: injected I/O failure")
+}
+
+pub fn io_event(kind: &'static str, path: &str, off: u64, len: u64) -> IoDecision {
+    let counted = COUNTED.with(|c| c.get());
+    let n = if counted { EVENTS.fetch_add(1, Ordering::SeqCst) + 1 } else { 0 };
+    if TRACING.load(Ordering::SeqCst) {
+        let file = path.rsplit('/').next().unwrap_or("");
+        TRACE
+            .lock()
+            .unwrap_or_else(|e| e.into_inner())
+            .push(format!("{} {} {} {} {}", n, kind, if file.is_empty() { "-" } else { file }, off, len));
+    }
+    if counted && n != 0 {
+        if n == EXIT_AT.load(Ordering::SeqCst) {
+            if kind == "uring_sqe" {
+                return IoDecision::DrainExit;
+            }
+            exit_now();
+        }
+        if n == FAIL_AT.load(Ordering::SeqCst) {
+            return IoDecision::Fail;
+        }
+    }
+    IoDecision::Proceed
+}
